@@ -33,6 +33,8 @@ def c13(run):
     Pts = run.prog('ts')
     r_cfgts.run(run, Prel, Pts, run.generated())
     r_lock.run(run, Pts)
+    from rules import r_lockimpl
+    r_lockimpl.run(run, Pts)
     run.assumptions = ASSUME_COMMON + [
         "paths after a failed re-lock (state F; only possible while coap_cleanup() runs concurrently) carry no obligations",
         "address-taken library functions (layer tables, persistence call-outs, TLS back-end callbacks) are entered with the lock held",
@@ -42,7 +44,7 @@ def c13(run):
         "typestate {U,L,F} balanced on every path of every function in every calling context reached from the public API; (R-LOCK-CALL) "
         "the project's own precondition marker and every function that transitively reaches it are only entered with the lock held, and no "
         "library code calls a locking COAP_API wrapper while locked; (R-LOCK-CB) in_callback increments balance and application callbacks "
-        "run with in_callback>0 or unlocked; (R-LOCK-WAIT) no unbounded wait while locked. Necessary for 'serialised and never deadlocks'.")
+        "run with in_callback>0 or unlocked; (R-LOCK-WAIT) no unbounded wait while locked; (R-LOCK-OWNER) the lock object's owner id and nesting counters are only written by the thread that owns the mutex (inside the two primitives: not after the mutex release, not before the acquisition). Necessary for 'serialised and never deadlocks'.")
 
 
 def c18(run):
@@ -66,6 +68,7 @@ def c12(run):
     r_session.run_ref_tmp(run, P)
     r_session.run_ref_hold(run, P)
     r_session.run_sess_evt(run, P)
+    r_session.run_teardown(run, P)
     from rules import r_ownlocal
     r_ownlocal.run(run, P)
     run.min_instances('R-OWN-LOCAL', 30)
